@@ -14,7 +14,7 @@ RULE = ('per configuration (sampling period and its unit, default unit, toleranc
         'events = gaps from P*{1-2tol, 1-tol, 1-tol/2, 1, 1+tol/2, 1+tol, 1+2tol, 2, 15/16, 17/16} and one reset() (dyadic, so interval membership is exact), counters kept '
         'in the state key; invariant on every transition: sampling_violation_counter == number of gaps outside [P(1-tol), P(1+tol)] (computed '
         'with exact fractions) and the returned robustness == reference rho (unaffected by jitter); offline: every sequence as the time column of '
-        'evaluate() on the offline and on the combined specification; non-trivial = the sequence has at least one in-tolerance and one out-of-tolerance gap')
+        'evaluate() on the offline and on the combined specification, and every pair of such sequences evaluated one after the other on the same object; non-trivial = the sequence has at least one in-tolerance and one out-of-tolerance gap')
 ASSUMPTIONS = ['time-stamps are expressed in the default unit of the specification; periods and tolerances dyadic',
                'sequence length bounded by the tier (the counter logic has no memory beyond the previous time-stamp)']
 
@@ -168,6 +168,44 @@ def offline_check(res, mod, m, depth):
                 res.digest('off', hist, combined, msg)
 
 
+def offline_repeat_check(res, mod, m, depth):
+    """one offline specification object evaluates two data sets one after the other: the counter must be the number of out-of-tolerance gaps
+    INSIDE the supplied time columns (accumulated over both, or of the last one only - the statement allows either reading), never a
+    pseudo-gap between the end of one column and the start of the next"""
+    seqs = [h for L in range(1, depth + 1) for h in itertools.product(m.events, repeat=L)]
+    for h1 in seqs:
+        for h2 in seqs:
+            for combined in (False, True):
+                res.evaluations += 1
+                case = {'mode': 'offline_repeat', 'combined': combined, 'cfg': list(m.cfg), 'tol': [m.tol.numerator, m.tol.denominator],
+                        'gaps': [[g.numerator, g.denominator] for g in h1], 'gaps2': [[g.numerator, g.denominator] for g in h2]}
+                msg = offline_repeat_case(m, h1, h2, combined)
+                if msg:
+                    res.violation(mod, case, msg)
+                    res.outcomes['offline repeat: counter'] += 1
+                else:
+                    res.outcomes['offline repeat ok'] += 1
+                    res.nontrivial += 1
+                res.digest('offrep', h1, h2, combined, msg)
+
+
+def offline_repeat_case(m, h1, h2, combined):
+    spec = m.fresh('dt_off', combined)
+    for h in (h1, h2):
+        L = len(h)
+        ts = [float(sum(h[:i + 1], Fr(0))) for i in range(L)]
+        w = {'x': [m.value(i) for i in range(L)]}
+        kind, val = impl.outcome(impl.dt_evaluate, spec, w, ts)
+        if kind != 'ok':
+            return 'evaluate() raised %s' % (val,)
+    cnt = spec.sampling_violation_counter
+    a, b = m.expected_count(h1), m.expected_count(h2)
+    if cnt not in (a + b, b):
+        return ('after evaluate() on two data sets with time columns built from the gaps %r and %r the counter is %r; the columns contain %d and %d '
+                'out-of-tolerance gaps (P=%s, tol=%s)' % ([float(g) for g in h1], [float(g) for g in h2], cnt, a, b, m.P, m.tol))
+    return None
+
+
 def run_shard(shard, tier, res):
     mod = sys.modules[__name__]
     cfg = tuple(shard['cfg'])
@@ -192,6 +230,7 @@ def run_shard(shard, tier, res):
     res.outcomes['online searches'] += 1
     res.digest(cfg, tol, st.states, st.transitions)
     offline_check(res, mod, m, 3 if tier == 'quick' else 4)
+    offline_repeat_check(res, mod, m, 2 if tier == 'quick' else 3)
     res.sample({'period': cfg[:2], 'default_unit': cfg[2] or 's', 'tolerance': float(tol), 'spec': m.text,
                 'gap_alphabet': [float(g) for g in m.events], 'states': st.states, 'transitions': st.transitions}, 1)
 
@@ -208,6 +247,9 @@ def replay(case):
             if msg:
                 msgs.append(msg)
         return msgs
+    if case['mode'] == 'offline_repeat':
+        msg = offline_repeat_case(m, hist, tuple(Fr(*g) for g in case['gaps2']), case['combined'])
+        return [msg] if msg else []
     L = len(hist)
     ts = [float(sum(hist[:i + 1], Fr(0))) for i in range(L)]
     w = {'x': [m.value(i) for i in range(L)]}
